@@ -75,6 +75,8 @@ structure ParseSt where
   nonfinite : List String := []
   offgrid : List String := []
   malformed : List String := []
+  /-- elements the implementation produced with an EMPTY id / flows with an empty end (printed `-`) -/
+  emptyIds : List String := []
 
 def ParseSt.bad (st : ParseSt) (m : String) : ParseSt := { st with malformed := m :: st.malformed }
 
@@ -94,6 +96,9 @@ def parseDLine (c : Ctx) (st : ParseSt) (ws : List String) : ParseSt :=
       let e := if ex == "1" then some true else if ex == "0" then some false else none
       { st with procs := st.procs.push ⟨i', e, [], []⟩, strIds := i :: st.strIds }
     | none => st.bad s!"proc id {i}"
+  | ["node", _, k, "-", _, _] => { st with emptyIds := s!"a {k} has an empty id" :: st.emptyIds }
+  | ["flow", _, i, "-", t] => { st with emptyIds := s!"sequence flow {i} → {t} has an empty source" :: st.emptyIds }
+  | ["flow", _, i, s, "-"] => { st with emptyIds := s!"sequence flow {i} from {s} has an empty target" :: st.emptyIds }
   | ["node", pi, k, i, inc, out] =>
     match pi.toNat?, kindNames.lookup k, idOf i, idList inc, idList out with
     | some pi, some k, some i', some inc, some out =>
@@ -434,6 +439,9 @@ def checkBuild (params lines : List String) : CaseResult := Id.run do
       r := { r with specs := s!"builder_panic: {rest}" :: r.specs }
     | _ => pure ()
   if panicked then return r
+  for m in st.emptyIds.reverse do
+    r := { r with specs := s!"empty_id: {m}" :: r.specs }
+  if !st.emptyIds.isEmpty then return r
   let impl := st.finish
   for m in impl.malformed do
     r := { r with bad := s!"cannot parse: {m}" :: r.bad }
